@@ -1,13 +1,26 @@
-//! C13 (part A): the real limit algorithms (`Aimd` over `AimdController`, `Vegas`) with hooked
+//! C13 (part A): the real limit algorithms (`Aimd` over `AimdController`, `Vegas`, the bare `AimdController`) with hooked
 //! atomics under the baton scheduler.
-//! header: `limit kind=aimd|vegas min= max= initial= inc= fnum= fden= thr_ms= alpha= beta=`
-//! ops: `manual thread t=<i> prog=<S<d>|F|L…>`, `manual warm prog=…` (sequential, on this thread, no
+//! header: `limit kind=aimd|vegas|ctl min= max= initial= inc= fnum= fden= thr_ms= alpha= beta= via=builder|new|layer`
+//! (`via`: the construction path — the algorithm's own builder, `Aimd::new(AimdConfig…)` / `Vegas::new(…)`, or the
+//! builders handed out by `AdaptiveLimiterLayer::builder().aimd()` / `.vegas()`; `kind=ctl`: `AimdController::new` over an
+//! `AimdConfig` built with `with_*` (`via=new`) or from `AimdConfig::default()` (otherwise))
+//! ops: `manual thread t=<i> prog=<S<d>|F|L|X|m|M|N<k>|R|K…>`, `manual warm prog=…` (sequential, on this thread, no
 //! scheduler), `manual sched s=<tid,tid,…>` (runs the thread programs under the schedule).
-use crate::sched::run_scheduled;
+//! `X` = `record_dropped()`, `m` / `M` = `min_limit()` / `max_limit()` (no atomic operation: the harness yields once in
+//! front of them, so each is one turn); `N<k>` = `record_successes(k)`, `R` = `reset()`, `K` = `clone()` + one success on
+//! the clone (its two limits are reported) — the bare controller only; elsewhere they are one yield and nothing else.
+//!
+//! Protocol level: every `warm` and every `sched` also records the value-level trace of the hooked atomics with the
+//! begin / end of every API call and hands it to the model as the observed choice `@tr=` of the operation; the limit
+//! cell is the cell a `limit()` call made first (thread 99) loads. The claim `trace-ok` is confirmed or refuted by the
+//! model's verified checker (`TR.Limit.checkTrace`).
+use crate::sched::{atrace_push, atrace_take, observe_here, probe_cell, run_scheduled, unobserve_here};
 use crate::world::*;
 use std::sync::Arc;
 use std::time::Duration;
-use tower_resilience_adaptive::{Aimd, Algorithm, ConcurrencyAlgorithm, Vegas};
+use tower_resilience_adaptive::{AdaptiveLimiterLayer, Aimd, Algorithm, ConcurrencyAlgorithm, Vegas};
+use tower_resilience_core::aimd::{AimdConfig, AimdController};
+use tower_resilience_core::verif::yield_point;
 
 /// latency table of the op language `S<d>` (nanoseconds); 0..3 are powers of two
 pub fn lat_ns(d: u32) -> u64 {
@@ -27,6 +40,12 @@ pub enum FOp {
     Succ(u64),
     Fail,
     Read,
+    Dropped,
+    MinL,
+    MaxL,
+    Succs(usize),
+    Reset,
+    CloneOp,
 }
 
 pub fn parse_prog(s: &str) -> Vec<FOp> {
@@ -39,6 +58,10 @@ pub fn parse_prog(s: &str) -> Vec<FOp> {
                 v.push(FOp::Succ(lat_ns((cs[i + 1] as u32).saturating_sub(48))));
                 i += 2;
             }
+            'N' if i + 1 < cs.len() => {
+                v.push(FOp::Succs((cs[i + 1] as u32).saturating_sub(48) as usize));
+                i += 2;
+            }
             'F' => {
                 v.push(FOp::Fail);
                 i += 1;
@@ -47,50 +70,244 @@ pub fn parse_prog(s: &str) -> Vec<FOp> {
                 v.push(FOp::Read);
                 i += 1;
             }
+            'X' => {
+                v.push(FOp::Dropped);
+                i += 1;
+            }
+            'm' => {
+                v.push(FOp::MinL);
+                i += 1;
+            }
+            'M' => {
+                v.push(FOp::MaxL);
+                i += 1;
+            }
+            'R' => {
+                v.push(FOp::Reset);
+                i += 1;
+            }
+            'K' => {
+                v.push(FOp::CloneOp);
+                i += 1;
+            }
             _ => i += 1,
         }
     }
     v
 }
 
-/// The algorithm built through the public builders from the case header.
-pub fn build_algorithm(kv: &Kv) -> Algorithm {
-    let (min, max, initial) = (kv.u64("min", 1) as usize, kv.u64("max", 100) as usize, kv.u64("initial", 10) as usize);
-    if kv.str("kind", "aimd") == "vegas" {
-        Algorithm::Vegas(
-            Vegas::builder()
-                .initial_limit(initial)
-                .min_limit(min)
-                .max_limit(max)
-                .alpha(kv.u64("alpha", 3) as usize)
-                .beta(kv.u64("beta", 6) as usize)
-                .build(),
-        )
-    } else {
-        Algorithm::Aimd(
-            Aimd::builder()
-                .initial_limit(initial)
-                .min_limit(min)
-                .max_limit(max)
-                .increase_by(kv.u64("inc", 1) as usize)
-                .decrease_factor(kv.u64("fnum", 1) as f64 / kv.u64("fden", 2) as f64)
-                .latency_threshold(Duration::from_millis(kv.u64("thr_ms", 100)))
-                .build(),
-        )
+/// What a feedback program runs on: one of the `ConcurrencyAlgorithm`s, or the bare controller.
+pub trait Target: Send + Sync {
+    fn succ(&self, ns: u64);
+    fn fail(&self);
+    fn dropped(&self);
+    fn limit(&self) -> usize;
+    fn min_limit(&self) -> usize;
+    fn max_limit(&self) -> usize;
+    /// the bare controller: `record_successes`, `reset`, `Clone`
+    fn ctl(&self) -> Option<&AimdController> {
+        None
+    }
+}
+impl<A: ConcurrencyAlgorithm> Target for A {
+    fn succ(&self, ns: u64) {
+        self.record_success(Duration::from_nanos(ns))
+    }
+    fn fail(&self) {
+        self.record_failure()
+    }
+    fn dropped(&self) {
+        self.record_dropped()
+    }
+    fn limit(&self) -> usize {
+        ConcurrencyAlgorithm::limit(self)
+    }
+    fn min_limit(&self) -> usize {
+        ConcurrencyAlgorithm::min_limit(self)
+    }
+    fn max_limit(&self) -> usize {
+        ConcurrencyAlgorithm::max_limit(self)
+    }
+}
+pub struct Ctl(pub AimdController);
+impl Target for Ctl {
+    fn succ(&self, _ns: u64) {
+        self.0.record_success()
+    }
+    fn fail(&self) {
+        self.0.record_failure()
+    }
+    fn dropped(&self) {}
+    fn limit(&self) -> usize {
+        self.0.limit()
+    }
+    fn min_limit(&self) -> usize {
+        // the accessor and the configuration it was built from must tell the same
+        let (a, b) = (self.0.min_limit(), self.0.config().min_limit);
+        if a == b {
+            a
+        } else {
+            usize::MAX
+        }
+    }
+    fn max_limit(&self) -> usize {
+        let (a, b) = (self.0.max_limit(), self.0.config().max_limit);
+        if a == b {
+            a
+        } else {
+            usize::MAX
+        }
+    }
+    fn ctl(&self) -> Option<&AimdController> {
+        Some(&self.0)
     }
 }
 
-/// Runs a feedback program on the calling thread; returns the values read by `limit()`.
-pub fn run_prog(a: &Algorithm, prog: &[FOp]) -> Vec<String> {
+fn cfg_nums(kv: &Kv) -> (usize, usize, usize) {
+    (kv.u64("min", 1) as usize, kv.u64("max", 100) as usize, kv.u64("initial", 10) as usize)
+}
+
+/// The algorithm built through one of its public construction paths (`via=`) from the case header.
+pub fn build_algorithm(kv: &Kv) -> Algorithm {
+    let (min, max, initial) = cfg_nums(kv);
+    let via = kv.str("via", "builder");
+    if kv.str("kind", "aimd") == "vegas" {
+        let (alpha, beta) = (kv.u64("alpha", 3) as usize, kv.u64("beta", 6) as usize);
+        Algorithm::Vegas(match via.as_str() {
+            "new" => Vegas::new(initial, min, max, alpha, beta),
+            _ => {
+                let b = if via == "layer" { AdaptiveLimiterLayer::<Algorithm>::builder().vegas() } else { Vegas::builder() };
+                b.initial_limit(initial).min_limit(min).max_limit(max).alpha(alpha).beta(beta).build()
+            }
+        })
+    } else {
+        let (inc, factor, thr) = (
+            kv.u64("inc", 1) as usize,
+            kv.u64("fnum", 1) as f64 / kv.u64("fden", 2) as f64,
+            Duration::from_millis(kv.u64("thr_ms", 100)),
+        );
+        Algorithm::Aimd(match via.as_str() {
+            "new" => Aimd::new(aimd_config(kv, true), thr),
+            _ => {
+                let b = if via == "layer" { AdaptiveLimiterLayer::<Algorithm>::builder().aimd() } else { Aimd::builder() };
+                b.initial_limit(initial)
+                    .min_limit(min)
+                    .max_limit(max)
+                    .increase_by(inc)
+                    .decrease_factor(factor)
+                    .latency_threshold(thr)
+                    .build()
+            }
+        })
+    }
+}
+
+fn aimd_config(kv: &Kv, fresh: bool) -> AimdConfig {
+    let (min, max, initial) = cfg_nums(kv);
+    let c = if fresh { AimdConfig::new() } else { AimdConfig::default() };
+    c.with_initial_limit(initial)
+        .with_min_limit(min)
+        .with_max_limit(max)
+        .with_increase_by(kv.u64("inc", 1) as usize)
+        .with_decrease_factor(kv.u64("fnum", 1) as f64 / kv.u64("fden", 2) as f64)
+}
+
+/// the target of the feedback programs of a `limit` case
+pub fn build_target(kv: &Kv) -> Arc<dyn Target> {
+    if kv.str("kind", "aimd") == "ctl" {
+        Arc::new(Ctl(AimdController::new(aimd_config(kv, kv.str("via", "builder") == "new"))))
+    } else {
+        Arc::new(build_algorithm(kv))
+    }
+}
+
+fn code(op: &FOp) -> String {
+    match op {
+        FOp::Succ(ns) => format!("S{}", ns),
+        FOp::Fail => "F".into(),
+        FOp::Read => "L".into(),
+        FOp::Dropped => "X".into(),
+        FOp::MinL | FOp::MaxL => "m".into(),
+        FOp::Succs(n) => format!("N{}", n),
+        FOp::Reset => "R".into(),
+        FOp::CloneOp => "K".into(),
+    }
+}
+
+/// One operation of a feedback program on the calling thread; returns what it reports (`limit()` / accessor values).
+fn run_op<T: Target + ?Sized>(a: &T, op: &FOp) -> Vec<String> {
+    match op {
+        FOp::Succ(ns) => a.succ(*ns),
+        FOp::Fail => a.fail(),
+        FOp::Read => return vec![a.limit().to_string()],
+        FOp::Dropped => {
+            yield_point();
+            a.dropped()
+        }
+        FOp::MinL => {
+            yield_point();
+            return vec![a.min_limit().to_string()];
+        }
+        FOp::MaxL => {
+            yield_point();
+            return vec![a.max_limit().to_string()];
+        }
+        FOp::Succs(n) => match a.ctl() {
+            Some(c) => c.record_successes(*n),
+            None => yield_point(),
+        },
+        FOp::Reset => match a.ctl() {
+            Some(c) => c.reset(),
+            None => yield_point(),
+        },
+        FOp::CloneOp => match a.ctl() {
+            Some(c) => {
+                // a clone is a controller of its own: same limit, same configuration, nothing shared
+                let k = c.clone();
+                let l0 = k.limit();
+                k.record_success();
+                return vec![l0.to_string(), k.limit().to_string()];
+            }
+            None => yield_point(),
+        },
+    }
+    Vec::new()
+}
+
+/// Runs a feedback program on the calling thread, the begin / end of every operation marked in the value-level trace (as
+/// thread `tid`); returns the values read by `limit()` (and the accessors).
+pub fn run_prog_traced<T: Target + ?Sized>(a: &T, tid: usize, prog: &[FOp]) -> Vec<String> {
     let mut out = Vec::new();
     for op in prog {
-        match op {
-            FOp::Succ(ns) => a.record_success(Duration::from_nanos(*ns)),
-            FOp::Fail => a.record_failure(),
-            FOp::Read => out.push(a.limit().to_string()),
-        }
+        let c = code(op);
+        atrace_push(format!("b{}:{}", tid, c));
+        let r = run_op(a, op);
+        let res = match op {
+            FOp::Read => r.first().cloned().unwrap_or_else(|| "-".into()),
+            _ => "-".into(),
+        };
+        atrace_push(format!("e{}:{}:{}", tid, c, res));
+        out.extend(r);
     }
     out
+}
+
+/// the text of a recorded trace: the cells the probes found, then the entries
+pub fn trace_text(lim_cell: Option<String>, inf_cell: Option<String>) -> String {
+    let at = atrace_take();
+    format!("k{},{};{}", lim_cell.unwrap_or_else(|| "-".into()), inf_cell.unwrap_or_else(|| "-".into()), at.join(";"))
+}
+
+/// A sequential feedback program on the calling thread with its value-level trace recorded (as thread 0); the trace
+/// becomes the observed choice `@tr=` of the operation in progress.
+pub fn traced_sequential<T: Target + ?Sized>(a: &T, prog: &[FOp]) -> Vec<String> {
+    let _ = atrace_take();
+    let lc = probe_cell(99, "L", || a.limit() as u64);
+    observe_here(0);
+    let o = run_prog_traced(a, 0, prog);
+    unobserve_here();
+    obs("tr", trace_text(lc, None));
+    o
 }
 
 pub fn render_outs(o: &[String]) -> String {
@@ -102,13 +319,13 @@ pub fn render_outs(o: &[String]) -> String {
 }
 
 pub struct Adapter {
-    alg: Arc<Algorithm>,
+    alg: Arc<dyn Target>,
     progs: Vec<String>,
 }
 
 impl Adapter {
     pub fn new(kv: &Kv) -> Adapter {
-        Adapter { alg: Arc::new(build_algorithm(kv)), progs: Vec::new() }
+        Adapter { alg: build_target(kv), progs: Vec::new() }
     }
 }
 
@@ -126,19 +343,24 @@ impl Mw for Adapter {
                 self.progs[t] = kv.str("prog", "");
             }
             "warm" => {
-                let o = run_prog(&self.alg, &parse_prog(&kv.str("prog", "")));
+                let o = traced_sequential(&*self.alg, &parse_prog(&kv.str("prog", "")));
                 log(format!("warm {}", render_outs(&o)));
                 log(format!("limit {}", self.alg.limit()));
+                log("trace-ok".to_string());
             }
             "sched" => {
                 let schedule: Vec<usize> =
                     kv.str("s", "").split(',').filter(|x| !x.is_empty()).filter_map(|x| x.parse().ok()).collect();
                 let mut bodies: Vec<Box<dyn FnOnce() -> Vec<String> + Send>> = Vec::new();
-                for p in std::mem::take(&mut self.progs) {
+                let _ = atrace_take();
+                // which cell is the limit cell: the one `limit()` loads
+                let lc = probe_cell(99, "L", || self.alg.limit() as u64);
+                for (tid, p) in std::mem::take(&mut self.progs).into_iter().enumerate() {
                     let a = self.alg.clone();
-                    bodies.push(Box::new(move || run_prog(&a, &parse_prog(&p))));
+                    bodies.push(Box::new(move || run_prog_traced(&*a, tid, &parse_prog(&p))));
                 }
                 let (trace, outs) = run_scheduled(bodies, &schedule);
+                obs("tr", trace_text(lc, None));
                 for l in trace {
                     log(l);
                 }
@@ -146,6 +368,7 @@ impl Mw for Adapter {
                     log(format!("th {} {}", i, render_outs(o)));
                 }
                 log(format!("limit {}", self.alg.limit()));
+                log("trace-ok".to_string());
             }
             _ => {}
         }
